@@ -75,7 +75,7 @@ def queries(tier):
     q = base._q
     qs = []
     M = "tq.m1"
-    for name, root, reader in (("kept", "root_a", ["reader", "/t9/p", "/t9/r"]), ("top", "root_b", None), ("helper", "root_c", ["reader_h", "/t9/p", "/t9/rh"]), ("keepcall", "root_d", ["reader_k", "/t9/k", "/t9/rk"]), ("twopaths", "root_f", ["reader_k2", "/t9/k2", "/t9/rk2"])):
+    for name, root, reader in (("kept", "root_a", ["reader", "/t9/p", "/t9/r"]), ("top", "root_b", None), ("helper", "root_c", ["reader_h", "/t9/p", "/t9/rh"]), ("keepcall", "root_d", ["reader_k", "/t9/k", "/t9/rk"]), ("twopaths", "root_f", ["reader_k2", "/t9/k2", "/t9/rk2"]), ("pathobj", "root_g", ["reader_pp", "/t9/k3", "/t9/rpp"])):
         st = {"style": "eval", "entry": [M, root]}
         if reader:
             st["reader"] = reader
